@@ -271,7 +271,11 @@ def watchdogLine (f : Facts) (m : OvMode) (idx : String) : String :=
   let c1 := run f m (init 8 64) (watchdogVisit false false)
   let e0 := run f m a0 [.cancel emptyReason]
   let e1 := run f m e0 (watchdogVisit false true ++ watchdogVisit true true)
-  s!"{idx} watchdog A={showReasonW a1.cancelled}/{if same then "same" else "changed"} B={showReasonW b1.cancelled} C={showReasonW c1.cancelled} D={showReasonW c1.cancelled} E={showReasonW e1.cancelled} reg=ok"
+  -- G: zero idle timeout (idle at every visit); H: `Duration::MAX` (never idle); L: registered late, idle when seen
+  let g1 := run f m a0 (watchdogVisit false true ++ watchdogVisit true true)
+  let h1 := run f m a0 (watchdogVisit false false ++ watchdogVisit false false)
+  let l1 := run f m a0 (watchdogVisit false true)
+  s!"{idx} watchdog A={showReasonW a1.cancelled}/{if same then "same" else "changed"} B={showReasonW b1.cancelled} C={showReasonW c1.cancelled} D={showReasonW c1.cancelled} E={showReasonW e1.cancelled} G={showReasonW g1.cancelled} H={showReasonW h1.cancelled} L={showReasonW l1.cancelled} reg=ok"
 
 /-! ### line protocol -/
 
@@ -289,6 +293,10 @@ def parseOp : List String → Option Op
   | ["resume", _, p, f, o] => do pure (.requestResume (← nat? p) (← nat? f) (← nat? o))
   | ["credit", _, l] => do pure (.waitCredit (← nat? l))
   | ["reconnect", _] => some .waitReconnect
+  -- the deadline / timeout of a wait is not a parameter of the model: a caller alone on the object gets the
+  -- outcome of one pass whatever it is (C12: `wait_pass`), so the token is accepted and ignored
+  | ["credit", _, l, _] => do pure (.waitCredit (← nat? l))
+  | ["reconnect", _, _] => some .waitReconnect
   | ["push", _, o, d, l, b] => do
     let lb ← (if l = "1" then some true else if l = "0" then some false else none)
     pure (.pushReplay (← nat? o) (← nat? d) lb (← bytesOfHex b))
@@ -306,6 +314,13 @@ def step (st : St) (ws : List String) : St × String :=
       let s := init w c
       ({ st with s := s }, idx ++ " new | " ++ showState s)
     | _, _ => (st, idx ++ " bad-op")
+  | ["newdef", idx, w] =>
+    -- `TransferControl::new(w)` = `with_replay_capacity(w, DEFAULT_REPLAY_RING_BYTES)` (`C13.defaults_fact`)
+    match nat? w with
+    | some w =>
+      let s := init w (if Gen.newUsesDefaultRing then Gen.defaultReplayRingBytes else 0)
+      ({ st with s := s }, idx ++ " new | " ++ showState s)
+    | none => (st, idx ++ " bad-op")
   | ["enum", idx, dom, len, group] =>
     match nat? len, nat? group with
     | some len, some group =>
